@@ -181,7 +181,7 @@ def stabilizer_circuit_lookup(num_qubits: int, connectivity: str, lc_class_id: i
         circuitInfos = stabilizer_file_cache[filename]
     except KeyError:
         lines = pkg_resources.read_text(data, filename).split("\n")
-        circuitInfos = [StabilizerCircuitInfo(num_qubits, line) for line in filter(lambda x: len(x) != 0, lines)]
+        circuitInfos = [StabilizerCircuitInfo(int(num_qubits), line) for line in filter(lambda x: len(x) != 0, lines)]
         stabilizer_file_cache[filename] = circuitInfos
 
     return copy.copy(circuitInfos[lc_class_id])
@@ -201,7 +201,7 @@ def mub_circuit_lookup(num_qubits: int, connectivity: str) -> MUBInfo:
         mubInfo = mub_file_cache[filename]
     except KeyError:
         lines = pkg_resources.read_text(data, filename).split("\n")
-        mubInfo = MUBInfo(num_qubits, lines)
+        mubInfo = MUBInfo(int(num_qubits), lines)
         mub_file_cache[filename] = mubInfo
 
     return mubInfo.copy()
